@@ -66,19 +66,18 @@ Set == b # <<>>
 ImplAccepts(unit, d, D) == ImplPos(unit, d, LAMBDA v : ImplNumAccepts(Leaf(unit), v, D))
 
 \* the intended design satisfies C05 on every unit and test value
-DesignOK == Set =>
-  \A i \in DOMAIN u.docs :
-     LET r == RefVerdict(u, u.docs[i]) IN
-     r # Un => (ImplAccepts(u, u.docs[i], {}) <=> r = Acc)
+\* unit is bound once per state (an operator would be re-evaluated at every use)
+Agree(unit, D) ==
+  \A i \in DOMAIN unit.docs :
+     LET r == DevVerdict(unit, unit.docs[i], D) IN
+     r # Un => (ImplAccepts(unit, unit.docs[i], D) <=> r = Acc)
 
+\* the intended design (no deviation) satisfies the property on every unit and document
+DesignOK == Set => LET unit == u IN Agree(unit, {})
 \* the two placements of the open deviations agree: switches inside the implementation-shaped model
-\* (Bounds) and switches inside the reference semantics (JV.Valid) predict the same verdicts
-AsIsOK == Set =>
-  \A i \in DOMAIN u.docs :
-     LET r == DevVerdict(u, u.docs[i], Devs) IN
-     r # Un => (ImplAccepts(u, u.docs[i], Devs) <=> r = Acc)
+\* and switches inside the reference semantics (JV.Valid) predict the same verdicts
+AsIsOK   == Set => LET unit == u IN Agree(unit, Devs)
 
-\* vacuity guards: both verdicts occur for this unit family (checked over all units by TLC's coverage)
 Init == /\ ty \in {"integer", "number"} /\ pos \in Positions /\ mult \in MultS(ty) /\ b = <<>>
 Pick == /\ b = <<>>
         /\ b' \in Incl(ty) \X Incl(ty) \X Excl(ty) \X Excl(ty)
@@ -87,5 +86,5 @@ Next == Pick
 Spec == Init /\ [][Next]_vars
 
 \* replay side: every unit is printed (one JSON line) for the harness
-Emit == Set => (UnitsFile = "" \/ PrintT("UNIT " \o ToJson(u)))
+Emit == Set => (UnitsFile = "" \/ LET unit == u IN PrintT("UNIT " \o ToJson(unit)))
 =============================================================================
